@@ -413,7 +413,7 @@ theorem ffInv_step {s : State} {e : Ev} (hobj : ObjsInv s) (hl : LaunchInv s) (h
         unfold mrpWriteOk at hw
         simp only [Bool.and_eq_true, Bool.or_eq_true, beq_iff_eq] at hw
         have hready : forkState s n f = .ready := by
-          rcases hw.2 with h | h
+          rcases hw with h | h
           · exact absurd h hk
           · exact h
         simp only [apply_launches] at hm
